@@ -232,6 +232,9 @@ func entriesOf(v any) map[string]fsx.Entry {
 		if t, ok := em["target"].(string); ok {
 			e.Target = t
 		}
+		if raw, ok := em["raw"].(string); ok {
+			e.Raw = []byte(raw)
+		}
 		if ds, ok := em["docs"].([]any); ok {
 			for _, d := range ds {
 				e.Docs = append(e.Docs, d.([]any))
